@@ -398,7 +398,7 @@ func (pw *PgWorld) RunSession(clientID string, script []Stmt) *SessionRun {
 			play = runMyClient
 			if pw.W.Plan.Sw("rawmy") == 1 {
 				// the second MySQL client: CLIENT_DEPRECATE_EOF when offered, re-execution without types
-				opts := myRawOpts{deprecateEOF: pw.DB.MyDeprecateEOF, reexec: pw.W.Plan.Sw("reexec") == 1}
+				opts := myRawOpts{deprecateEOF: pw.DB.MyDeprecateEOF, reexec: pw.W.Plan.Sw("reexec") == 1, longData: pw.W.Plan.Sw("longdata") == 1}
 				play = func(conn net.Conn, script []Stmt, results []StmtResult) error {
 					return runMyRawClient(conn, script, results, opts)
 				}
